@@ -25,7 +25,7 @@ import common
 
 PID = "C14"
 FMTS = ("json", "msgpack", "cbor")
-EXTRA_COQ = ["Codec/C14Conf.v"]
+EXTRA_COQ = ["Codec/C14Conf.v", "Codec/C14ConfShape.v"]
 MODEL_VO = ["Codec/Canon.vo", "Codec/Serial.vo", "gen/GenC14Schema.vo"]
 
 INTENDED_SHAPE = {
@@ -302,8 +302,8 @@ class Run:
                     c["_needs_diag"] = True
                 elif xk == "ok" and xp != gp:
                     c["_needs_diag"] = True
-                elif xk == "unsup" and vk == "err" and not in_universe(c["D"]) is False and is_map_start(c["fmt"], c["hex"] or ""):
-                    # the codec itself refuses these bytes as one item, yet a message came out
+                elif xk == "unsup" and vk == "err":
+                    # the codec itself refuses these bytes as ONE item, yet a message came out
                     c["_needs_diag"] = True
             if gk == "ok" or mk == "ok":
                 self.distinct.add((c["fmt"], c["m_des"] if mk == "ok" else c["D"]))
